@@ -32,6 +32,9 @@ for m in muts:
         if r.returncode == 1 and viol:
             repro = [l for l in viol if "no-failing-input-found" not in l]
             print(f"caught   {m['id']} ({m['property']}): {len(viol)} violation line(s), {len(repro)} replayed on the real code")
+        elif m.get("known_gap"):
+            # a documented gap of the contracts: reported, but not a failure of the machinery
+            print(f"KNOWN-GAP {m['id']} ({m['property']}): not detected - {m['known_gap']}")
         else:
             print(f"MISSED   {m['id']} ({m['property']}): exit {r.returncode}\n{r.stdout[-800:]}"); bad += 1
     finally:
